@@ -110,19 +110,21 @@ PROPS["C15"] = {
 }
 
 PROPS["C03"] = {
-    "imports": ["NsyncVerif.Props.C03", "NsyncVerif.Proofs.VC"],
+    "imports": ["NsyncVerif.Props.C03", "NsyncVerif.Proofs.VC", "NsyncVerif.Props.C03Once", "NsyncVerif.Props.C03Counter"],
     "theorems": ["NsyncVerif.Props.C03." + t for t in ["C03_release_chain", "C03_mutex_handoff", "C03_release_recorded", "C03_released_monotone",
                  "C03_unlock_happens_before_lock", "C03_orders_required"]] +
                 ["NsyncVerif.VC." + t for t in ["vc_mono_run", "acq_sees_relc", "rel_records", "release_chain_run", "message_passing",
-                 "relaxed_load_no_edge", "relaxed_store_breaks"]],
-    "layers": ["vc", "mux", "once"],
+                 "relaxed_load_no_edge", "relaxed_store_breaks"]] +
+                ["Once." + t for t in ["C03_once_invariant", "C03_once", "C03_once_state", "C03_once_needs_acquire"]] +
+                ["Counter." + t for t in ["C03_counter_machine", "C03_counter_adds_chain", "C03_counter", "C03_counter_carrier", "C03_counter_no_other_edges", "C03_counter_value", "C03_counter_add"]],
+    "layers": ["vc", "mux", "once", "counter"],
     "tie": ["NsyncVerif.Proofs.TieOrders", "NsyncVerif.Proofs.TieSites"],
     "harness_args": ["plain=1"],     # log nsync's own plain accesses to registered objects: raced-checked by the vc layer
     "oracles": {"vc"},
     "plan": {"quick": [("core", 80, 6), ("cv", 50, 6), ("muwait", 50, 6), ("once", 60, 6), ("ctr", 60, 6)],
              "thorough": [("core", 800, 12), ("cv", 500, 12), ("muwait", 500, 12), ("once", 600, 12), ("ctr", 600, 12), ("mixed", 500, 12)]},
-    "level_text": "Kernel-checked theorems: (1) over the MuX protocol with declared orders and ghost vector clocks — the release clock of the mutex word always covers every past release point (C03_release_chain), so whatever a thread did before giving up its share happens before the continuation of every thread that later comes to own a share, for all interleavings and any number of threads, using only acquire/release strength and the C++20 release-sequence rule (C03_unlock_happens_before_lock); the acceptor requires acquire on every share/spinlock-taking write, release on every share/spinlock-releasing write and release on the plain stores (C03_orders_required); (2) over the generic vector-clock machine — the message-passing theorem (release write, then only RMWs / dominated release stores, then acquire read ⇒ happens-before) that the once / note / counter / signal hand-offs instantiate. Tied to the code by lockstep: every atomic operation of every explored execution goes through the vc layer (which also checks the five hand-offs of the statement on the real executions: data-race detector for mutex-protected client data AND for nsync's own plain fields (compiler-instrumented accesses to queue links, waiter records, note and counter fields), once end→return, note set→observation, counter zero→wait return, signal→woken return) and the mutex word's operations through MuX's order checks.",
-    "level_note": "The once / note / counter / signal edges are proved as instances of the generic message-passing theorem only informally: that each layer's return path reads, with acquire, a value written with release is enforced by the layer acceptors' order checks and verified on every explored execution by the vc layer, but the product of each layer model with the clock machine is not yet a theorem (partial). Orders of sites no explored schedule reaches are not covered by lockstep. SC interleavings only, as the property specifies.",
+    "level_text": "Kernel-checked theorems: (1) over the MuX protocol with declared orders and ghost vector clocks — the release clock of the mutex word always covers every past release point (C03_release_chain), so whatever a thread did before giving up its share happens before the continuation of every thread that later comes to own a share, for all interleavings and any number of threads, using only acquire/release strength and the C++20 release-sequence rule (C03_unlock_happens_before_lock); the acceptor requires acquire on every share/spinlock-taking write, release on every share/spinlock-releasing write and release on the plain stores (C03_orders_required); (2) over the generic vector-clock machine — the message-passing theorem (release write, then only RMWs / dominated release stores, then acquire read ⇒ happens-before); (3) over the PRODUCT of the Once acceptor with the clock machine — the end of the once-function happens before every nsync_run_once* return, for all accepted traces (C03_once), with the negative control that a relaxed final load carries no edge; (4) over the product of the Counter acceptor with the clock machine — the pre-CAS clock of the zeroing add and of every add before it is below the clock of every nsync_counter_wait that returns 0; the carrier is the waiter's own acquire load of the value on every path, never the semaphore or the counter mutex (C03_counter, C03_counter_carrier, C03_counter_no_other_edges). Tied to the code by lockstep: every atomic operation of every explored execution goes through the vc layer (which also checks the five hand-offs of the statement on the real executions: data-race detector for mutex-protected client data AND for nsync's own plain fields (compiler-instrumented accesses to queue links, waiter records, note and counter fields), once end→return, note set→observation, counter zero→wait return, signal→woken return) and the mutex word's operations through MuX's order checks.",
+    "level_note": "The mutex, once and counter edges are theorems (products of the layer acceptors with the clock machine). The note and the cv-signal edges are so far covered by the generic message-passing theorem plus the vc layer's per-execution checks (their layer models are under construction): partial. Orders of sites no explored schedule reaches are not covered by lockstep. SC interleavings only, as the property specifies.",
 }
 
 MUQ = "NsyncVerif.MuQ."
